@@ -9,6 +9,7 @@ from glotaran.io import ProjectIoInterface
 from glotaran.io import register_project_io
 from glotaran.parameter import Parameters
 from glotaran.parameter.parameter import OPTION_NAMES_DESERIALIZED
+from glotaran.utils.io import parameter_text_column_read_options
 from glotaran.utils.io import safe_dataframe_fillna
 from glotaran.utils.io import safe_dataframe_replace
 
@@ -29,7 +30,12 @@ class ExcelProjectIo(ProjectIoInterface):
         -------
             :class:`Parameters`
         """
-        df = pd.read_excel(file_name, na_values=["None", "none"])
+        column_names = pd.read_excel(file_name, nrows=0).columns
+        df = pd.read_excel(
+            file_name,
+            na_values=["None", "none"],
+            **parameter_text_column_read_options(column_names),
+        )
         df.columns = [column.lower() for column in df.columns]
         df = df.rename(columns=OPTION_NAMES_DESERIALIZED)
         safe_dataframe_fillna(df, "minimum", -np.inf)
